@@ -8,13 +8,13 @@ on the id-based profile of `Model/Profile.lean`.  Core Lean only.
   explicit scanner.
 * Go keys `prune` / `pruneBeneath` by `Location.ID`; with unique location ids (CheckValid) the
   entry of an id is what was computed for the table entry with that id (`findLocation`).
-* `Prune` is modelled WITH the repair fixes/C11-prune-partial-first-user-location.patch
-  (`if !foundUser` → `if !foundUser && prune[id]`): a location whose root-side lines are user
-  frames and whose inner line matches is itself the place to cut, whether or not a user frame was
-  seen before.  `pruneUnrepaired` keeps the scan of the pinned tree for reference.
-* What the repair cannot reach (a location whose root-most line matches but which has inner
-  non-matching lines: finding C11/prune/H-violated/top-line-match) and the global line trimming of
-  `PruneFrom` (finding C11/prune_from/inlined-location-above-lowest-match) are modelled as they are.
+* `Prune` and `PruneFrom` are modelled AS THEY ARE, including the three recorded findings
+  (C11/prune/H-violated/partial-first-user-location, C11/prune/H-violated/top-line-match,
+  C11/prune_from/inlined-location-above-lowest-match).  `scanRepaired` is the per-sample loop with
+  the one-line change `if !foundUser` → `if !foundUser && prune[id]` that removes the first family;
+  it is not proposed as a fix because golden files of internal/driver (TestParse, heap profile
+  whose root location is partially matched) encode the present behaviour
+  (fixes/needs-golden-update/C11-prune-partial-first-user-location.patch).
 -/
 namespace PV.Prune
 
@@ -100,16 +100,16 @@ def scan (cls : Nat → LocClass) : List Nat → Bool → List Nat
     match cls id with
     | .user => id :: scan cls r true
     | .whole => if fu then [] else id :: scan cls r fu
-    | .beneath => [id]
+    | .beneath => if fu then [id] else id :: scan cls r fu
 
-/-- the same loop as it is on the pinned tree (`if !foundUser { continue }`). -/
-def scanUnrepaired (cls : Nat → LocClass) : List Nat → Bool → List Nat
+/-- the loop with `if !foundUser && prune[id] { continue }` (NOT the code; see the header). -/
+def scanRepaired (cls : Nat → LocClass) : List Nat → Bool → List Nat
   | [], _ => []
   | id :: r, fu =>
     match cls id with
-    | .user => id :: scanUnrepaired cls r true
-    | .whole => if fu then [] else id :: scanUnrepaired cls r fu
-    | .beneath => if fu then [id] else id :: scanUnrepaired cls r fu
+    | .user => id :: scanRepaired cls r true
+    | .whole => if fu then [] else id :: scanRepaired cls r fu
+    | .beneath => [id]
 
 def pruneSample (p : Profile) (q : Str → Bool) (s : Sample) : Sample :=
   { s with locationIDs := (scan (classOf p q) s.locationIDs.reverse false).reverse }
@@ -122,12 +122,12 @@ def pruneWith (p : Profile) (q : Str → Bool) : Profile :=
 
 def prune (p : Profile) (drop : Rx) (keep : Option Rx) : Profile := pruneWith p (pruneName drop keep)
 
-def pruneUnrepaired (p : Profile) (drop : Rx) (keep : Option Rx) : Profile :=
+def pruneRepaired (p : Profile) (drop : Rx) (keep : Option Rx) : Profile :=
   let q := pruneName drop keep
   { p with
     locations := p.locations.map (pruneLoc p q)
     samples := p.samples.map (fun s =>
-      { s with locationIDs := (scanUnrepaired (classOf p q) s.locationIDs.reverse false).reverse }) }
+      { s with locationIDs := (scanRepaired (classOf p q) s.locationIDs.reverse false).reverse }) }
 
 /-! ### RemoveUninteresting -/
 def anchored (e : Str) : Str := Str.ofString "^(" ++ e ++ Str.ofString ")$"
